@@ -71,6 +71,10 @@ func serializeIdentifier(value string) string {
 	if value == "-" {
 		return `\-`
 	}
+	if value == "--" {
+		// "--" followed by ">" would be read as "-->"
+		return `-\-`
+	}
 
 	if len(value) >= 2 && value[:2] == "--" {
 		return "--" + serializeName(value[2:])
